@@ -20,6 +20,19 @@ import (
 	"rcproxy/core/codec"
 )
 
+// parseReqLen parses the count or length of a client request, which is forwarded to redis as it is,
+// so only what redis accepts is accepted here: a canonical non-negative decimal no larger than max.
+func parseReqLen(p []byte, max int) (int, error) {
+	if len(p) < 1 || len(p) > 10 || (len(p) > 1 && p[0] == '0') {
+		return -1, codec.ErrInvalidResp
+	}
+	n, err := parseLen(p)
+	if err != nil || n < 0 || n > max {
+		return -1, codec.ErrInvalidResp
+	}
+	return n, nil
+}
+
 func parseLen(p []byte) (int, error) {
 	if len(p) < 1 {
 		return -1, errors.New("malformed length")
